@@ -594,7 +594,7 @@ func (e *Enc) havoc(st *State, ms *modSet, tag string) {
 	if ms.all {
 		for k := range e.compSort {
 			// the activation trace and the panic flag are local to the activation: no callee changes them
-			if !e.immutableComp(k) && !strings.HasPrefix(k, "X:tr") && k != "X:panicking" && !strings.HasPrefix(k, "X:defer_") && k != "X:protected" {
+			if !e.immutableComp(k) && !e.localGhost(k) && !strings.HasPrefix(k, "X:tr") && k != "X:panicking" && !strings.HasPrefix(k, "X:defer_") && k != "X:protected" {
 				names = append(names, k)
 			}
 		}
@@ -622,6 +622,18 @@ func (e *Enc) compAssume(st *State, name string, c, old Term) {
 	if strings.HasPrefix(name, "X:") {
 		e.ghostAssume(st, name[2:], c, old)
 	}
+}
+
+func (e *Enc) localGhost(k string) bool {
+	if !strings.HasPrefix(k, "X:") {
+		return false
+	}
+	for _, g := range e.P.Spec.Ghosts {
+		if g.Local && g.Name == k[2:] {
+			return true
+		}
+	}
+	return false
 }
 
 func (e *Enc) immutableComp(k string) bool {
@@ -864,6 +876,18 @@ func (e *Enc) instr(st *State, ins ssa.Instruction) {
 	case *ssa.Panic:
 		if e.c == nil || !e.c.MayPanic {
 			e.oblige("panic", "explicit", ap, st.reach, TFalse, "explicit panic reachable", ins.Pos())
+		} else if len(e.c.PanicsOnlyWhen) > 0 {
+			sc := e.specCtx(st, e.pre)
+			var alts []Term
+			for _, cl := range e.c.PanicsOnlyWhen {
+				t, err := sc.evalBool(cl.Expr)
+				if err != nil {
+					e.unsupported = "panics_only_when: " + err.Error()
+					return
+				}
+				alts = append(alts, t)
+			}
+			e.oblige("panic", "allowed", e.c.Props, st.reach, Or(alts...), "this panic is raised only in one of the documented misuse cases", ins.Pos())
 		}
 	case *ssa.If, *ssa.Jump:
 	case *ssa.DebugRef:
